@@ -118,23 +118,24 @@ def _mk_col(ci):
        outside="more than 8 documents per column (except the RefBytes switch harness), offsets beyond 2^16, zlib/pickle themselves")
     def harness(mask: int, v1: int, v2: int, dc: int, co: int) -> Optional[str]:
         """
-        pre: 0 <= mask < 64 and 0 <= v1 < NVC and 0 <= v2 < NVC and 6 <= dc <= 8 and 0 <= co < NCO
+        pre: 0 <= mask < 64 and 0 <= v1 < NV_ and 0 <= v2 < NV_ and 6 <= dc <= 8 and 0 <= co < NCO
         post: _ is None
         """
         dc0 = dc - 6            # (arithmetic on symbolic values only while tracing)
         with notrace():
             m = pick(mask, 64)
-            a, b = pick(v1, NVC), pick(v2, NVC)
+            a, b = pick(v1, NV_), pick(v2, NV_)
             cov = pick(co, NCO)
             r = roundtrip(ci, m, [a, b, a + 1, b + 2, a + 3, b + 1], pick(dc0, 3) + 6, [0, 2, 5, 400][cov] if ci == 1 else 0)
         tick(m != 0)
         return r
     NCO = 4 if ci == 1 else 1
+    NV_ = 4 if ci == 1 else NVC       # (the cut-off job already multiplies by 4 cut-offs)
     harness.__name__ = harness.__qualname__ = cname
     return cname, harness
 
 
-NVC = tiered(4, 7)
+NVC = tiered(4, 5)
 for _ci in range(NC):
     _n, _f = _mk_col(_ci)
     globals()[_n] = _f
@@ -339,7 +340,7 @@ def c08_stored(m1: int, m2: int, m3: int, vs: int, cf: int) -> Optional[str]:
     return r
 
 
-NM2 = tiered(4, NM)
+NM2 = tiered(4, 6)
 
 
 def _kf_dt():
